@@ -59,7 +59,7 @@ static long read_hunk_header(FILE *in)
 
   for (n = 0; n < table_length; n++)
   {
-    if (feof(in)) { break; }
+    if (feof(in) || ferror(in)) { break; }
 
     //uint32_t size = read_int32(in);
     read_int32(in);
@@ -119,7 +119,7 @@ int read_amiga(const char *filename, Memory *memory)
     uint32_t hunk_type = read_int32(in);
 
     // A file that ends before its code hunk has no image.
-    if (feof(in))
+    if (feof(in) || ferror(in))
     {
       fclose(in);
       return -1;
